@@ -396,9 +396,9 @@ def unaryWrap (o : ClientObs) : ClientObs :=
   | [], some e => { o with msgs := [] }                         -- first Receive returned the error
   | [], none => { o with result := some (localErr codeUnknown) }  -- first Receive returned EOF: "unknown: EOF"
   | [_], none => o
-  | [_], some e =>   -- NewError(CodeUnknown, err): the message is err.Error() = "<code>: <message>"
-    { o with msgs := [], result := some { (localErr codeUnknown) with
-        msg := if e.msg = [42] then [42] else if e.msg = [] then codeString e.code else codeString e.code ++ [58, 32] ++ e.msg } }
+  | [_], some _ =>   -- the second Receive failed with a coded error: that error is the call's (fix F17;
+                     -- every error a conn's Receive returns is coded)
+    { o with msgs := [] }
   | _ :: _ :: _, _ => { o with msgs := [], result := some (localErr codeUnknown) }  -- "unary stream has multiple messages"
 
 def clientDecode (decStatus : Bytes → Option WireErr) (cfg : CCfg) (statusText : Bytes) (r : Resp) : ClientObs :=
